@@ -22,7 +22,7 @@ var LibModels = []string{
 	"utf8.RuneStart(b): exact (b is not in 0x80..0xBF)",
 	"strings.TrimSpace: result is a sub-slice of the argument (same backing array, offsets within bounds); trimmed prefix/suffix bytes satisfy isTrimByte (uninterpreted superset of ASCII space); result does not start/end with an ASCII space byte; whole characters are trimmed (for valid UTF-8 input the result starts and ends on character boundaries)",
 	"strings.ToUpper/ToLower: length-preserving for ASCII input; ASCII letters mapped exactly, other ASCII bytes unchanged (non-ASCII: uninterpreted)",
-	"sort.Ints/Strings/Float64s/Slice: result is an unconstrained permutation-abstracted sequence of the same length (abstracted)",
+	"sort.Ints: same length, ascending, same set of values, distinctness preserved (consequences of 'sorted permutation'); sort.Strings/Float64s/Slice: same length, contents unconstrained (abstracted)",
 	"other strings/strconv/unicode/utf8/math/path functions: uninterpreted deterministic functions of their arguments",
 }
 
@@ -188,6 +188,23 @@ func (x *Exec) libCall(key string, fn *types.Func, call *ast.CallExpr, recvExpr 
 		nb := x.W.Fresh("sorted", x.W.SeqBase(cur).Sort)
 		nv, _ := x.W.WithField(cur, "base", nb)
 		nv.GoT = cur.GoT
+		if key == "sort.Ints" {
+			// trusted contract: sorted permutation — stated as: ascending; same set of values; distinctness preserved
+			c := x.W.Fresh("srt", nv.Sort)
+			c.GoT = nv.GoT
+			x.W.Facts = append(x.W.Facts, Eq(c, nv).S)
+			n := x.W.SeqLen(cur)
+			qa, qb := T("qa", SInt), T("qb", SInt)
+			inR := func(q Term) Term { return And(Cmp("<=", IntLit(0), q), Cmp("<", q, n)) }
+			asc := fmt.Sprintf("(forall ((qa Int) (qb Int)) (! (=> (and %s %s (< qa qb)) (<= %s %s)) :pattern (%s %s)))", inR(qa).S, inR(qb).S, x.W.SeqAt(c, qa).S, x.W.SeqAt(c, qb).S, x.W.SeqAt(c, qa).S, x.W.SeqAt(c, qb).S)
+			sub1 := fmt.Sprintf("(forall ((qa Int)) (! (=> %s (exists ((qb Int)) (and %s (= %s %s)))) :pattern (%s)))", inR(qa).S, inR(qb).S, x.W.SeqAt(cur, qb).S, x.W.SeqAt(c, qa).S, x.W.SeqAt(c, qa).S)
+			sub2 := fmt.Sprintf("(forall ((qa Int)) (! (=> %s (exists ((qb Int)) (and %s (= %s %s)))) :pattern (%s)))", inR(qa).S, inR(qb).S, x.W.SeqAt(c, qb).S, x.W.SeqAt(cur, qa).S, x.W.SeqAt(cur, qa).S)
+			distinctOld := fmt.Sprintf("(forall ((qa Int) (qb Int)) (=> (and %s %s (< qa qb)) (not (= %s %s))))", inR(qa).S, inR(qb).S, x.W.SeqAt(cur, qa).S, x.W.SeqAt(cur, qb).S)
+			distinctNew := fmt.Sprintf("(forall ((qa Int) (qb Int)) (! (=> (and %s %s (< qa qb)) (not (= %s %s))) :pattern (%s %s)))", inR(qa).S, inR(qb).S, x.W.SeqAt(c, qa).S, x.W.SeqAt(c, qb).S, x.W.SeqAt(c, qa).S, x.W.SeqAt(c, qb).S)
+			x.W.AddFact(env.pc, T("(and "+asc+" "+sub1+" "+sub2+" (=> "+distinctOld+" "+distinctNew+"))", SBool))
+			x.assign(call.Args[0], c, env)
+			return nil, true
+		}
 		x.W.Note(key + ": result abstracted (same length, contents unconstrained)")
 		x.assign(call.Args[0], nv, env)
 		return nil, true
